@@ -244,6 +244,7 @@ func check(id, tier string) int {
 	foundPart := map[string]string{}
 	foundDev := map[string]int{}
 	broken := ""
+	lostWorker := "" // a worker hung or died: an engine problem unless the others found a violation
 	for _, pt := range p.Parts(tier) {
 		if only := os.Getenv("VERIF_PARTS"); only != "" && !strings.Contains(","+only+",", ","+pt.Name+",") {
 			continue // debugging aid: run selected parts only (evidence then covers only those)
@@ -300,7 +301,12 @@ func check(id, tier string) int {
 					ps.Merge(&cs)
 					continue
 				}
-				broken = errs[i]
+				// a worker that hung or died outside the library did not finish its
+				// share; what the other workers found and confirmed by replay still
+				// stands (see the end of check)
+				lostWorker = errs[i]
+				ps.Exhaustive = false
+				ps.CapNote = "a worker process did not finish; its share was not completed"
 				continue
 			}
 			b, err := os.ReadFile(base + ".json")
@@ -352,6 +358,15 @@ func check(id, tier string) int {
 	if broken != "" {
 		fmt.Fprintln(os.Stderr, "ENGINE ERROR:", broken)
 		return 2
+	}
+	if lostWorker != "" {
+		if len(total.Found) == 0 {
+			fmt.Fprintln(os.Stderr, "ENGINE ERROR:", lostWorker)
+			return 2
+		}
+		// confirmed violations are reported; the lost share is noted
+		fmt.Fprintln(os.Stderr, "ENGINE NOTE: a worker did not finish (its share of the exploration is missing):", strings.SplitN(lostWorker, "\n", 2)[0])
+		total.Exhaustive = false
 	}
 
 	// classify violations
